@@ -277,6 +277,24 @@ func execute(in In) (*result, error) {
 				res.err2 = doMove(dst2)
 			case "copy":
 				res.err2 = doCopy(dst2)
+			case "recopy":
+				// the same upload is copied into the same destination once more, through a fresh handle parsed from the source
+				if in.Kind == "changes" {
+					if c2, err := control.ParseChangesFile(ctl); err == nil {
+						res.err2 = c2.Copy(dst)
+					} else {
+						res.err2 = fmt.Errorf("source control file no longer parses: %v", err)
+					}
+				} else {
+					if d2, err := control.ParseDscFile(ctl); err == nil {
+						res.err2 = d2.Copy(dst)
+					} else {
+						res.err2 = fmt.Errorf("source control file no longer parses: %v", err)
+					}
+				}
+			case "copyback":
+				// the handle now points at the destination: copy from there back over the originals
+				res.err2 = doCopy(src)
 			}
 		}
 	}()
@@ -342,6 +360,12 @@ func checkSequence(scen string, in In) ([]*mc.Violation, *result) {
 		expect(src, true, "originals untouched")
 		expect(dst, true, "first copy stays")
 		expect(dst2, true, "second copy complete")
+	case "copy>recopy":
+		expect(src, true, "originals untouched by copying them twice")
+		expect(dst, true, "the destination holds complete copies after the second Copy")
+	case "copy>copyback":
+		expect(src, true, "originals intact (overwritten with identical content at most)")
+		expect(dst, true, "copies intact")
 	case "move>remove":
 		expect(src, false, "moved away")
 		expect(dst, false, "removed at the new location")
@@ -740,14 +764,17 @@ func Run(r *mc.Run) {
 	var seqs []In
 	for _, kind := range []string{"dsc", "changes"} {
 		for _, first := range []string{"copy", "move"} {
-			for _, then := range []string{"remove", "move", "copy"} {
+			for _, then := range []string{"remove", "move", "copy", "recopy", "copyback"} {
+				if first == "move" && (then == "recopy" || then == "copyback") {
+					continue
+				}
 				for _, names := range plain[1:] {
 					seqs = append(seqs, In{Kind: kind, Op: first, Names: names, Dest: "emptydir", Event: "none", Then: then})
 				}
 			}
 		}
 	}
-	r.Scenario("two-operations-on-one-handle", map[string]interface{}{"sequences": len(seqs), "first": "copy | move", "then": "remove | move | copy"}, len(seqs), func(i int, st *mc.Stats) bool {
+	r.Scenario("two-operations-on-one-handle", map[string]interface{}{"sequences": len(seqs), "first": "copy | move", "then": "remove | move | copy | copy the source again into the same destination (fresh handle) | copy back over the originals"}, len(seqs), func(i int, st *mc.Stats) bool {
 		st.Evals++
 		st.Traces++
 		st.Nontrivial++
